@@ -78,4 +78,74 @@ def fsOpenWriter (name : String) : List Sys := [.openRW name]
 def metaInit (tmp final : String) : List Sys :=
   [.openCreat tmp, .pwrite tmp, .fsync tmp, .rename tmp final, .fsyncDir]
 
+/-! ## `fs.File.Sync` when a system call fails
+
+The handle returned by `Create` / `OpenWriter` carries the `new` flag (`isNew`): the directory is fsynced by `Sync` as
+long as it is set.  Either fsync may fail; `Sync` then returns the error and the caller may call it again. -/
+
+structure Handle where
+  name  : String
+  isNew : Bool := true
+  deriving Repr, DecidableEq
+
+/-- what the kernel answers to the (up to) two fsyncs of one `Sync` call -/
+structure SyncOutcome where
+  fileOk : Bool
+  dirOk  : Bool
+  deriving Repr, DecidableEq
+
+/-- the point of `File.Sync` at which the `new` flag is cleared (read from fs/file.go by the fact extractor) -/
+inductive FlagPolicy
+  | beforeFileSync    -- before the file's fsync is known to have succeeded
+  | afterFileSync     -- after the file's fsync, before the directory's fsync is known to have succeeded
+  | afterDirSync      -- only once the directory's fsync has succeeded
+  deriving Repr, DecidableEq
+
+def FlagPolicy.ofCode : Nat → FlagPolicy
+  | 0 => .beforeFileSync
+  | 1 => .afterFileSync
+  | _ => .afterDirSync
+
+/-- `fs.File.Sync()`: (handle afterwards, the system calls that took effect, returned nil?) -/
+def fileSync (pol : FlagPolicy) (h : Handle) (o : SyncOutcome) : Handle × List Sys × Bool :=
+  match pol with
+  | .afterDirSync =>
+    if !o.fileOk then (h, [], false)
+    else if h.isNew then
+      if o.dirOk then ({ h with isNew := false }, [.fsync h.name, .fsyncDir], true) else (h, [.fsync h.name], false)
+    else (h, [.fsync h.name], true)
+  | .afterFileSync =>
+    if !o.fileOk then (h, [], false)
+    else if h.isNew then
+      if o.dirOk then ({ h with isNew := false }, [.fsync h.name, .fsyncDir], true)
+      else ({ h with isNew := false }, [.fsync h.name], false)
+    else (h, [.fsync h.name], true)
+  | .beforeFileSync =>
+    if !o.fileOk then ({ h with isNew := false }, [], false)
+    else if h.isNew then
+      if o.dirOk then ({ h with isNew := false }, [.fsync h.name, .fsyncDir], true)
+      else ({ h with isNew := false }, [.fsync h.name], false)
+    else (h, [.fsync h.name], true)
+
+/-- what a caller does with one handle: write to the file, or Sync (with the kernel's answers) -/
+inductive HOp
+  | write
+  | sync (o : SyncOutcome)
+  deriving Repr, DecidableEq
+
+/-- one call on the handle: (OS state, handle) afterwards and, for a Sync, whether it returned nil -/
+def hstep (pol : FlagPolicy) (s : OState) (h : Handle) : HOp → Option (OState × Handle × Option Bool)
+  | .write => (exec s (.pwrite h.name)).map (fun s' => (s', h, none))
+  | .sync o =>
+    let (h', calls, ack) := fileSync pol h o
+    (run s calls).map (fun s' => (s', h', some ack))
+
+/-- a history of calls on one handle; the answer of the last call -/
+def hrun (pol : FlagPolicy) (s : OState) (h : Handle) : List HOp → Option (OState × Handle × Option Bool)
+  | [] => some (s, h, none)
+  | [op] => hstep pol s h op
+  | op :: ops => match hstep pol s h op with
+    | none => none
+    | some (s', h', _) => hrun pol s' h' ops
+
 end RaftWal.OsFs
